@@ -323,6 +323,50 @@ func streamLock(c *ctx) {
 			c.w.Emit(fmt.Sprintf("lock %s reply-after=%d%s", path, delay.Milliseconds(), note), fmt.Sprintf("first:%s second:%s %s", o1, o2, within), "lock/"+path, "lock/second-"+o2)
 		}
 	}
+	// two overlapping calls from the same fixed bind port to the SAME controller (one client, then two), the client
+	// built with and without a listen address: the second waits for the port, each gets the reply to its own request
+	for _, listen := range []string{"listen-address", "no-listen-address"} {
+		for _, clients := range []int{1, 2} {
+			bind := freePort()
+			rs := newUDPResponder("127.0.0.1", echo(func() time.Duration { return 60 * time.Millisecond }))
+			ap := netip.MustParseAddrPort(rs.addr())
+			mk := func() uhppote.IUHPPOTE {
+				la := types.ListenAddr{}
+				if listen == "listen-address" {
+					la = types.ListenAddrFrom(netip.MustParseAddr("127.0.0.1"), 60001)
+				}
+				return uhppote.NewUHPPOTE(types.BindAddrFrom(netip.MustParseAddr("127.0.0.1"), uint16(bind)), types.BroadcastAddr{}, la, T,
+					[]uhppote.Device{{DeviceID: 1000021, Address: types.ControllerAddrFrom(ap.Addr(), ap.Port()), Protocol: "udp"}}, false)
+			}
+			u1 := mk()
+			u2 := u1
+			if clients == 2 {
+				u2 = mk()
+			}
+			outs := make([]string, 2)
+			var wg sync.WaitGroup
+			for k, u := range []uhppote.IUHPPOTE{u1, u2} {
+				wg.Add(1)
+				go func(k int, u uhppote.IUHPPOTE) {
+					defer wg.Done()
+					card := uint32(7000 + k)
+					res, err := getCard(u, 1000021, card)
+					switch {
+					case err != nil:
+						outs[k] = "err"
+					case res == nil || res.CardNumber != card:
+						outs[k] = "crossed"
+					default:
+						outs[k] = "ok"
+					}
+				}(k, u)
+				time.Sleep(10 * time.Millisecond)
+			}
+			wg.Wait()
+			rs.close()
+			c.w.Emit(fmt.Sprintf("lock-same-endpoint udp %s clients=%d", listen, clients), fmt.Sprintf("first:%s second:%s", outs[0], outs[1]), "lock/same-endpoint")
+		}
+	}
 	// the reply to a call that has already timed out arrives at the shared port while the NEXT call (to another
 	// controller) is waiting for its own reply: it is not that call's business
 	{
